@@ -240,4 +240,34 @@ def epArrayInto (trailing : List Nat) (f : β → Except Fault (List α)) (qshap
 
 end entry
 
+/-! ### which rejected element an `OutOfBounds` error names
+
+Every entry point funnels into the strategy's `interp_into`, element by element in logical
+(row-major) order, and returns its first error; the strategies test `x` (then, in 2-D, `y`) against
+`is_in_range` and put the offending value into the message. -/
+
+section witness
+variable {α : Type} [Cmp α]
+
+/-- a value that `is_in_range` does not accept (NaN included: the comparisons are false) -/
+def rejected (xs : List α) (q : α) : Bool :=
+  match isInRange xs q with
+  | .ok true => false
+  | _ => true
+
+/-- 1-D: the first rejected query element -/
+def oobWitness1 (xs : List α) (qs : List α) : Option α :=
+  qs.find? (rejected xs)
+
+/-- 2-D: the first element with a rejected coordinate; `x` is tested before `y`
+    (`false` = the message names `x`, `true` = it names `y`) -/
+def oobWitness2 (xs ys : List α) : List (α × α) → Option (Bool × α)
+  | [] => none
+  | (x, y) :: rest =>
+    if rejected xs x then some (false, x)
+    else if rejected ys y then some (true, y)
+    else oobWitness2 xs ys rest
+
+end witness
+
 end NdInterp
